@@ -19,7 +19,10 @@ from fractions import Fraction
 RTOL = 1e-9
 _U = {}
 
-REAL_UNITS = {"L": ["m", "km", "cm", "inch"], "T": ["s", "ms", "min", "hr"]}
+REAL_UNITS = {"L": ["m", "km", "cm", "inch"], "T": ["s", "ms", "min", "hr"], "iL": ["1/m", "1/km", "1/cm", "1/inch"], "iT": ["Hz", "kHz", "1/min", "MHz"]}
+# registries in which one spelling has different values (MC_C07: QK, RegCase, RegDCase)
+REG_SYMBOL = {1: {"L": "ql", "T": "qt"}, 2: {"L": "ql", "T": "qt"}, 3: {"L": "ft", "T": "min"}, 4: {"L": "ft", "T": "min"}}
+REG_DYADIC = {1: {"ql": 3, "qt": -2}, 2: {"ql": 5, "qt": 1}}
 
 VALS = {
     "sc": [2.5, 1.5, 4.0],
@@ -70,7 +73,17 @@ def setup(common=None):
     from unyt import dimensions
     from unyt.unit_registry import UnitRegistry
 
-    _U.update(np=np, unyt=unyt, ua=unyt.unyt_array, uq=unyt.unyt_quantity, reg=UnitRegistry(), dim={"L": dimensions.length, "T": dimensions.time}, names=_names())
+    _U.update(np=np, unyt=unyt, ua=unyt.unyt_array, uq=unyt.unyt_quantity, reg=UnitRegistry(), names=_names(),
+              dim={"L": dimensions.length, "T": dimensions.time, "iL": 1 / dimensions.length, "iT": 1 / dimensions.time})
+    regs = {}
+    for j, tab in REG_DYADIC.items():
+        regs[j] = UnitRegistry()
+        for sym, k in tab.items():
+            regs[j].add(sym, float(2.0**k), dimensions.length if sym == "ql" else dimensions.time)
+    regs[4] = UnitRegistry()
+    regs[4].modify("ft", 0.25)
+    regs[4].modify("min", 64.0)
+    _U["regs"] = regs
     _U["lensym"] = dimensions.length
     _U["timesym"] = dimensions.time
 
@@ -117,11 +130,19 @@ def catalogue(_=None):
 
 
 # ------------------------------------------------------------------ operands
+def _unit_reg(d, j):
+    """the shared spelling of dimension d as registry j defines it (3 = the default registry)"""
+    sym = REG_SYMBOL[j][d]
+    if j == 3:
+        return _U["unyt"].Unit(sym)
+    return _U["unyt"].Unit(sym, registry=_U["regs"][j])
+
+
 def _unit(u, real):
     d, k = u[0], int(u[1])
     if real:
         return _U["unyt"].Unit(REAL_UNITS[d][k])
-    name = ("xl" if d == "L" else "xt") + ("p" if k >= 0 else "n") + str(abs(k))
+    name = {"L": "xl", "T": "xt", "iL": "xil", "iT": "xit"}[d] + ("p" if k >= 0 else "n") + str(abs(k))
     reg = _U["reg"]
     if name not in reg.lut:
         reg.add(name, float(2.0**k), _U["dim"][d])
@@ -545,7 +566,8 @@ def _run(case, which):
     np = _U["np"]
     real = bool(case["real"])
     us = case[which]
-    units = [_unit(u, real) for u in us]
+    rg = case.get("rg") or [0] * len(us)
+    units = [_unit_reg(u[0], int(j)) if which == "u" and int(j) else _unit(u, real) for u, j in zip(us, rg)]
     c = Ctx(dict(case, _k=[int(u[1]) for u in us]), units)
     t = case["t"]
     import warnings
